@@ -1,4 +1,5 @@
 import TcheranVerif.Proofs.MagicCert
+import TcheranVerif.Proofs.Sweep.S15  -- only to bound how many parts are checked at once (≈8 GB each)
 /-! C07 sweep, part 19: rook squares [25, 26, 27, 28] — decided by the kernel alone -/
 namespace Tcheran.Sweep
 
